@@ -322,6 +322,9 @@ func runC11(c *Ctx, r *Report) {
 	// (d) a helper is a function of its arguments: stage closures keep no state between evaluations
 	c05StagePurity(c, r, "C11-d")
 	okResultLive(c, r, "C11-a/ok-live", "rare/pkg/expressions/stdlib")
+	c11Coalesce(c, r, "C11-c/coalesce-empty")
+	c11DecimalBase(c, r, "C11-a/decimal-base", stdlibPkg)
+	stageKeepsNoAtomicState(c, r, "C11-d/atomic-state", nil, true)
 }
 
 func c11ErrorMarkers(c *Ctx, r *Report) {
